@@ -202,7 +202,7 @@ def answerOfJson : (q : Query) → Json → P (Answer q)
     match ← strField j "r" with
     | "valid" => pure SigOutcome.valid
     | "invalid" => pure SigOutcome.invalid
-    | c => pure (SigOutcome.raised c)
+    | c => pure (SigOutcome.raised (if c.startsWith "raised:" then (c.drop 7).toString else c))   -- the Python class name
   | .x509Load _, j => optField certViewOfJson j "view"
   | .chainVerify _ _ _, j => do
     match ← strField j "r" with
